@@ -93,7 +93,7 @@ func cmdAsyncLoad(f hx.Flags, r *hx.Result) {
 	policies := []log.BufferFullPolicy{log.BufferFullPolicyBlock, log.BufferFullPolicyDiscard, log.BufferFullPolicyDiscardOldest}
 	polName := []string{"Block", "Discard", "DiscardOldest"}
 	modes := []string{"fast", "slow", "bursty"}
-	for run := 0; run < runs; run++ {
+	for run := 0; run < runs && !hx.Stopped(); run++ {
 		pi := run % 3
 		mode := modes[(run/3)%3]
 		producers := []int{1, 2, 3, 4, 8, 16, 32}[rng.Intn(7)]
@@ -106,7 +106,7 @@ func cmdAsyncLoad(f hx.Flags, r *hx.Result) {
 		lg := &log.AsyncLogger{
 			LoggerBase: log.LoggerBase{Level: log.LevelRange{MinLevel: log.InfoLevel, MaxLevel: log.MaxLevel}},
 			AppenderRefs: log.AppenderRefs{AppenderRefs: []*log.AppenderRef{{Appender: app,
-				Level: log.LevelRange{MinLevel: log.NoneLevel, MaxLevel: log.MaxLevel}}}},
+				Level: log.LevelRange{MinLevel: log.InfoLevel, MaxLevel: log.MaxLevel}}}},
 			BufferSize: capacity, BufferFullPolicy: policies[pi],
 		}
 		if rng.Intn(3) == 0 {
@@ -174,7 +174,7 @@ func cmdAsyncLoad(f hx.Flags, r *hx.Result) {
 			continue
 		}
 		t0 := time.Now()
-		ret, pv := hx.Within(60*time.Second, func() { lg.Stop() })
+		ret, pv := hx.Within(15*time.Second, func() { lg.Stop() })
 		rec.StopMs = float64(time.Since(t0).Microseconds()) / 1000
 		if !ret || pv != nil {
 			r.Violate("stop-failed", desc, "Stop returned=%v panic=%v", ret, pv)
